@@ -31,7 +31,10 @@ def pick_policy(rnd):
     if x < 0.40:
         return {'name': 'fair'}
     name = 'collide' if x < 0.60 else 'edge' if x < 0.75 else 'mix'
-    return {'name': name, 'rate': rnd.choice((0.05, 0.15, 0.3)), 'burst': rnd.choice((2, 6, 12, 20)), 'site_frac': rnd.choice((0.5, 0.8, 1.0))}
+    # bursts are bounded so that legal rejection loops stay live; a minority of runs gets very long bursts ("starvation":
+    # hundreds of consecutive colliding draws, which fair seeds only produce on hub-dominated graphs of 40+ nodes)
+    burst = rnd.choice((2, 6, 12, 20)) if rnd.random() < 0.8 else rnd.choice((60, 150, 400))
+    return {'name': name, 'rate': rnd.choice((0.05, 0.15, 0.3)), 'burst': burst, 'site_frac': rnd.choice((0.5, 0.8, 1.0))}
 
 
 def make_rng(case, mode, abort_at=None):
